@@ -24,35 +24,73 @@ def base_xyz(place):
     return (round((N + h) * math.cos(b) * math.cos(l)), round((N + h) * math.cos(b) * math.sin(l)), round((N * (1 - e2) + h) * math.sin(b)))
 
 
+def xyz2blh(x, y, z):
+    """textbook iteration (independent of gama's closed formula)"""
+    e2 = F_ * (2 - F_)
+    l = math.atan2(y, x)
+    p = math.hypot(x, y)
+    b = math.atan2(z, p * (1 - e2))
+    h = 0.0
+    for _ in range(12):
+        N = A_ / math.sqrt(1 - e2 * math.sin(b) ** 2)
+        h = p / math.cos(b) - N if abs(math.cos(b)) > 1e-3 else z / math.sin(b) - N * (1 - e2)
+        b = math.atan2(z, p * (1 - e2 * N / (N + h)))
+    return b, l, h
+
+
+def neu2xyz(b, l, n, e, u):
+    sb, cb, sl, cl = math.sin(b), math.cos(b), math.sin(l), math.cos(l)
+    return (-sb * cl * n - sl * e + cb * cl * u, -sb * sl * n + cl * e + cb * sl * u, cb * n + sb * u)
+
+
+STAT_TAG = {"fixed": "fixed", "free": "free", "constr": "constr"}
+
+
 def make_input(net, perm=None):
     bx = base_xyz(net["place"])
     ids = ["P%d" % i for i in range(1, net["np"] + 1)]
     xyz = [tuple(bx[k] + net["offsets"][i][k] for k in range(3)) for i in range(net["np"])]
-    nfix = {"fix1": 1, "fix2": 2, "constr": 0}[net["status"]]
+    blh = [xyz2blh(*p) for p in xyz]
     recs = []
-    if nfix:
-        recs.append("<fixed> <n/> <e/> <u/> </fixed>")
-        for i in range(nfix):
-            recs.append("<point> <id>%s</id> <x>%d</x> <y>%d</y> <z>%d</z> </point>" % ((ids[i],) + xyz[i]))
-    if net["status"] == "constr":
-        recs.append("<constr> <n/> <e/> <u/> </constr>")
-        for i in range(net["np"]):
-            recs.append("<point> <id>%s</id> <x>%d</x> <y>%d</y> <z>%d</z> </point>" % ((ids[i],) + xyz[i]))
-    else:
-        recs.append("<free> <n/> <e/> <u/> </free>")
-        for i in range(nfix, net["np"]):
-            recs.append("<point> <id>%s</id> <x>%.3f</x> <y>%.3f</y> <z>%.3f</z> </point>" % (ids[i], xyz[i][0] + 0.02, xyz[i][1] - 0.03, xyz[i][2] + 0.01))
+    for i in range(net["np"]):
+        hs, us = net["pstat"][i]
+        # given coordinates: adjusted (not constrained) components are displaced by centimetres in the local frame
+        dn = de = du = 0.0
+        if net["displ"]:
+            if hs == "free":
+                dn, de = (((i + 1) * 3) % 7 - 3) / 100.0, (((i + 2) * 5) % 7 - 3) / 100.0
+            if us == "free":
+                du = (((i + 3) * 2) % 5 - 2) / 100.0
+        d = neu2xyz(blh[i][0], blh[i][1], dn, de, du)
+        g = [xyz[i][k] + d[k] for k in range(3)]
+        st = "<%s> <n/> <e/> </%s> <%s> <u/> </%s>" % (hs, hs, us, us) if hs != us else "<%s> <n/> <e/> <u/> </%s>" % (hs, hs)
+        recs.append("<point> <id>%s</id> <x>%.8f</x> <y>%.8f</y> <z>%.8f</z> <geoid>0</geoid> %s </point>" % (ids[i], g[0], g[1], g[2], st))
     obs = []
-    for k, (a, b) in enumerate(net["vectors"]):
-        nz = 0.0 if net["noise"] == 0 else (((k + 1) * (net["noise"] + 2)) % 7 - 3) / 1000.0
+    k = 0
+    for (a, b) in net["vectors"]:
+        k += 1
+        nz = 0.0 if net["noise"] == 0 else ((k * (net["noise"] + 2)) % 7 - 3) / 1000.0
         d = [xyz[b - 1][j] - xyz[a - 1][j] for j in range(3)]
         cov = COVS[net["cov"]]
         band = 0 if len(cov) == 3 else 2
         obs.append("<obs>\n<vector> <from>%s</from> <to>%s</to> <dx>%.4f</dx> <dy>%.4f</dy> <dz>%.4f</dz> </vector>\n<cov-mat> <dim>3</dim> <band>%d</band> %s </cov-mat>\n</obs>" % (
             ids[a - 1], ids[b - 1], d[0] + nz, d[1] - nz, d[2] + 2 * nz, band, " ".join("<flt>%s</flt>" % v for v in cov)))
+    for (a, b) in net["dists"]:
+        k += 1
+        nz = 0.0 if net["noise"] == 0 else ((k * (net["noise"] + 2)) % 7 - 3) / 1000.0
+        obs.append("<obs>\n<distance> <from>%s</from> <to>%s</to> <val>%.8f</val> <stdev>3</stdev> </distance>\n</obs>" % (ids[a - 1], ids[b - 1], math.dist(xyz[a - 1], xyz[b - 1]) + nz))
+    for a in net["heights"]:
+        k += 1
+        nz = 0.0 if net["noise"] == 0 else ((k * (net["noise"] + 2)) % 7 - 3) / 1000.0
+        obs.append("<obs>\n<height> <id>%s</id> <val>%.8f</val> <stdev>4</stdev> </height>\n</obs>" % (ids[a - 1], blh[a - 1][2] + nz))
+    for (a, b) in net["hdiffs"]:
+        k += 1
+        nz = 0.0 if net["noise"] == 0 else ((k * (net["noise"] + 2)) % 7 - 3) / 1000.0
+        obs.append("<obs>\n<hdiff> <from>%s</from> <to>%s</to> <val>%.8f</val> <stdev>2</stdev> </hdiff>\n</obs>" % (ids[a - 1], ids[b - 1], blh[b - 1][2] - blh[a - 1][2] + nz))
     if perm:
         rnd = random.Random(perm)
         rnd.shuffle(obs)
+        rnd.shuffle(recs)
     head = ('<?xml version="1.0" ?>\n<gnu-gama-data xmlns="http://www.gnu.org/software/gama/gnu-gama-data">\n<g3-model>\n<constants>\n'
             '<apriori-standard-deviation>10</apriori-standard-deviation>\n<confidence-level>0.95</confidence-level>\n<angular-units-gons/>\n'
             '<ellipsoid><id>wgs84</id></ellipsoid>\n</constants>\n')
@@ -165,7 +203,7 @@ def run(ctx):
                     for j, c in enumerate("xyz"):
                         if abs(p[c] - xyz[i][j]) > 1e-4:            # results are printed with 5 decimals
                             report("truth", "point %s %s adjusted %.5f, generating %d" % (pid, c, p[c], xyz[i][j]))
-                if st["pvv"] > 1e-6:
+                if st["pvv"] > 1e-5:
                     report("truth_pvv", "sum of squares %r for consistent vectors" % st["pvv"])
             if perm == 0 and alg == "envelope":
                 envref = (alg, perm, res)
@@ -211,7 +249,7 @@ def run(ctx):
     for f in os.listdir(wd):
         os.remove(os.path.join(wd, f))
     if nets:
-        ctx.sample({k: nets[0][k] for k in ("np", "place", "vectors", "status", "cov", "noise", "parameters", "equations", "defect")})
+        ctx.sample({k: nets[0][k] for k in ("np", "place", "vectors", "dists", "heights", "hdiffs", "status", "displ", "cov", "noise", "parameters", "equations", "defect")})
     ctx.assume("ECEF base points are computed from (B, L, H) by the textbook formula and rounded to integer metres; only vector observations are generated")
     return {"evaluations": len(tasks) + nadj, "distinct_nontrivial": len(nets),
             "rule": "networks = states of G3Session.tla (thinned by Keep = %s, then evenly sampled); each is run with 4 algorithms + one permutation of the records, "
